@@ -219,16 +219,20 @@ def closer_deleted(doc, k):
     if kind == 'bracket':
         # a bracket group closes at the next ] outside braces: the deletion must leave the text unbalanced
         depth = 0
-        for t, c in ps[ci + 1:]:
-            for ch in t:
-                if ch == '{':
-                    depth += 1
-                elif ch == '}':
-                    depth -= 1
-                elif ch == ']' and depth <= 0:
-                    return ('skip',)
-            if depth < 0:
-                break
+        rest = ''.join([SX.raw(t) for t, c in ps[ci + 1:]])
+        i = 0
+        while i < len(rest) and depth >= 0:
+            ch = rest[i]
+            if ch == '\\':
+                i += 2              # an escaped character is text, whatever it is
+                continue
+            if ch == '{':
+                depth += 1
+            elif ch == '}':
+                depth -= 1
+            elif ch == ']' and depth <= 0:
+                return ('skip',)
+            i += 1
     src = ''.join([t for i, (t, c) in enumerate(ps) if i != ci])
     full = ''.join([t for t, c in ps])
     det = lambda: {'document': full, 'input': src, 'deleted': kind}
